@@ -52,6 +52,8 @@ PROPERTIES = {
             ('C03-R1', frag.rule_const_fragments, 'quick'),
             ('C03-R1', frag.rule_handle_dot_inline, 'quick'),
             ('C03-R2', c03.rule_guard_tables, 'quick'),
+            ('C02-R2', c02.rule_separator_consumers, 'quick'),
+            ('C02-R3', c02.rule_separator_pairing, 'quick'),
             ('C03-R3', c03.rule_start_typestate, 'quick'),
             ('C03-R4', c03.rule_exclusion_dotmatch, 'quick'),
             ('C03-R5', c03.rule_walker_hidden, 'quick'),
